@@ -28,9 +28,35 @@ ast2pending: dict[type[ast.AST], type[PendingNode]] = {
 }
 
 
+_unsupported_exprs = (ast.Yield, ast.YieldFrom, ast.Await)
+
+
+def check_supported(ast_root: ast.Module):
+    """
+    Refuse unsupported nodes wherever they are: expressions are copied
+    without dispatch and statements after return/break/continue are never
+    visited, so the dispatch table alone does not see them.
+    """
+    for node in ast.walk(ast_root):
+        if isinstance(node, _unsupported_exprs) or (
+            isinstance(node, ast.comprehension) and node.is_async
+        ):
+            raise RuntimeError(
+                f"Unable to convert node '{type(node).__name__}'"
+                if not isinstance(node, ast.comprehension)
+                else "Unable to convert asynchronous comprehension"
+            )
+        if isinstance(node, ast.stmt) and type(node) not in ast2pending:
+            raise RuntimeError(
+                utils.ast_debug_info(node)
+                + f"Unable to convert node '{type(node).__name__}'"
+            )
+
+
 def convert(
     ast_root: ast.Module, symtable_root: symtable.SymbolTable, configs: Configs
 ) -> ast.expr:
+    check_supported(ast_root)
     pending_node_stack: list[PendingNode] = []
     nsp_global = generate_nsp(symtable_root, configs)
     nsp_stack: list[Namespace] = [nsp_global]
